@@ -1,0 +1,8 @@
+//go:build verif
+
+package avltree
+
+// VerifBalance is a read-only accessor for the verification harness: the stored balance factor.
+func (n *Node[K, V]) VerifBalance() int {
+	return int(n.b)
+}
